@@ -2,6 +2,7 @@
 //! C17 shares this enumerator (mode = C17): a failed open releases nothing derived from the ciphertext.
 use crate::aead::*;
 use crate::core::*;
+use crate::sodium;
 use serde::{Deserialize, Serialize};
 use serde_json::json;
 
@@ -232,12 +233,65 @@ pub fn run_mode(ctx: &mut Ctx, mode: Mode) -> Result<(), Violation> {
 }
 
 pub fn run(ctx: &mut Ctx) -> Result<(), Violation> {
-    ctx.rule = "One authentic wire message per (kind in {secretbox, box, precomputed box, sealed box, stream}, message length, fill), produced by libsodium; then EVERY single fault (bit flip of each component, every truncation, extension family) x EVERY opening entry point of that kind (classic easy/detached/in-place/afternm/seal_open/pull and object-API from_bytes/from_parts/decrypt/precalc_decrypt/unseal/pull with several containers). Oracle: faulted open returns Err (no panic), control returns Ok(original); libsodium must reject the same faulted input (faults it accepts are excluded and counted). Non-trivial: exactly one fault on an authentic message of length >= 1; distinct = (opener, length, fault, fill).".into();
+    ctx.rule = "One authentic wire message per (kind in {secretbox, box, precomputed box, sealed box, stream}, message length, fill), produced by libsodium; then EVERY single fault (bit flip of each component, every truncation, extension family) x EVERY opening entry point of that kind (classic easy/detached/in-place/afternm/seal_open/pull and object-API from_bytes/from_parts/decrypt/precalc_decrypt/unseal/pull with several containers). Plus untampered 3-message stream sequences with every combination of 8 tag bytes (both pull APIs must accept each message). Oracle: faulted open returns Err (no panic), control returns Ok(original); libsodium must reject the same faulted input (faults it accepts are excluded and counted). Non-trivial: exactly one fault on an authentic message of length >= 1; distinct = (opener, length, fault, fill).".into();
     ctx.assumptions = vec![
         "forgery probability 2^-128 per case is the accepted false-alarm bound".into(),
         "public/secret box key bit flips are not in the family (clamped and masked bits are don't-cares; the property does not list them)".into(),
     ];
-    run_mode(ctx, Mode::C02)
+    run_mode(ctx, Mode::C02)?;
+    authentic_stream_sequences(ctx)
+}
+
+/// "The untampered input is always accepted" for streams means every message of an untampered SEQUENCE: three
+/// libsodium-pushed messages with every combination of tag bytes from a table must all be pulled (right message,
+/// right tag) by the classic and the object API.
+fn authentic_stream_sequences(ctx: &mut Ctx) -> Result<(), Violation> {
+    use dryoc::classic::crypto_secretstream_xchacha20poly1305 as css;
+    use dryoc::dryocstream::{DryocStream, Pull};
+    let tags: [u8; 8] = [0, 1, 2, 3, 4, 0x82, 0x83, 0xff];
+    let mut items = vec![];
+    for a in tags {
+        for b in tags {
+            for c in tags {
+                items.push([a, b, c]);
+            }
+        }
+    }
+    let seed = ctx.seed;
+    ctx.par_each(&items, |_, seq, ev| seq_case(seed, seq, ev))
+}
+
+fn seq_case(seed: u64, seq: &[u8; 3], ev: &mut Evidence) -> Result<(), Violation> {
+    use dryoc::classic::crypto_secretstream_xchacha20poly1305 as css;
+    use dryoc::dryocstream::{DryocStream, Pull};
+        for (li, len) in [0usize, 1, 33].into_iter().enumerate() {
+            let mut f = Fill::new(seed, &format!("C02:seq:{seq:?}:{len}"));
+            let (key, header): ([u8; 32], [u8; 24]) = (f.arr(), f.arr());
+            let mut push = sodium::stream_init_pull(&header, &key); // same initial state as a push stream with this header
+            let mut dst = css::State::new();
+            css::crypto_secretstream_xchacha20poly1305_init_pull(&mut dst, &header, &key);
+            let mut obj: DryocStream<Pull> = DryocStream::init_pull(&key, &header);
+            for (i, &tag) in seq.iter().enumerate() {
+                let msg = f.bytes(len + i);
+                let ad = if (li + i) % 2 == 0 { None } else { Some(f.bytes(5)) };
+                let ct = sodium::stream_push(&mut push, &msg, ad.as_deref(), tag);
+                ev.eval(2);
+                ev.class("authentic 3-message stream sequence (all tag combinations)");
+                ev.nontrivial(fnv64(&[b"seq", seq, &[i as u8, len as u8]]));
+                let case = json!({"tags": seq, "len": len, "index": i, "seed": seed});
+                let mut m = vec![0u8; msg.len()];
+                let mut t = 0u8;
+                match no_panic(|| css::crypto_secretstream_xchacha20poly1305_pull(&mut dst, &mut m, &mut t, &ct, ad.as_deref())) {
+                    Ok(Ok(_)) if m == msg && t == tag => {}
+                    other => return Err(Violation::new("C02", "authentic-stream-sequence", format!("classic pull: untampered message #{i} (tag {tag:#04x}) of the sequence with tags {seq:02x?} was not accepted as pushed: {:?}", other.map(|r| r.map(|_| (t, m.len())).map_err(|e| format!("{e:?}")))), case)),
+                }
+                match no_panic(|| obj.pull_to_vec(&ct, ad.as_ref())) {
+                    Ok(Ok((m2, t2))) if m2 == msg && t2.bits() == tag => {}
+                    other => return Err(Violation::new("C02", "authentic-stream-sequence", format!("DryocStream::pull_to_vec: untampered message #{i} (tag {tag:#04x}) of the sequence with tags {seq:02x?} was not accepted as pushed: {:?}", other.map(|r| r.map(|(m, t)| (t.bits(), m.len())).map_err(|e| format!("{e:?}")))), case)),
+                }
+            }
+        }
+        Ok(())
 }
 
 pub fn replay_mode(v: &Violation, mode: Mode) -> Result<(), String> {
@@ -282,5 +336,10 @@ pub fn replay_mode(v: &Violation, mode: Mode) -> Result<(), String> {
 }
 
 pub fn replay(v: &Violation) -> Result<(), String> {
+    if v.kind == "authentic-stream-sequence" {
+        let t: Vec<u8> = v.case["tags"].as_array().map(|a| a.iter().map(|x| x.as_u64().unwrap_or(0) as u8).collect()).unwrap_or_default();
+        let seq: [u8; 3] = t.try_into().map_err(|_| "bad replay file")?;
+        return seq_case(v.case["seed"].as_u64().unwrap_or(1), &seq, &mut Evidence::default()).map_err(|v| v.message);
+    }
     replay_mode(v, Mode::C02)
 }
